@@ -1141,3 +1141,25 @@ pub fn pick_compaction_scenario(
     let nums = |fs: &[Arc<FileMetadata>]| fs.iter().map(|f| f.file_number()).collect::<Vec<u64>>();
     Some((cm.level(), nums(cm.get_compaction_level_files()), nums(cm.get_parent_level_files())))
 }
+
+/// Recover a fresh version set from the (closed) database at `options`.
+/// Returns (manifest number CURRENT names, manifest number the version set writes to next, the next new file number,
+/// manifest reused).
+pub fn vset_recover_numbers(options: DbOptions) -> Option<(u64, u64, u64, bool)> {
+    use crate::file_names::{FileNameHandler, ParsedFileType};
+    let fs = options.filesystem_provider();
+    let handler = FileNameHandler::new(options.db_path().to_string());
+    let mut current = fs.open_file(&handler.get_current_file_path()).ok()?;
+    let mut name = String::new();
+    std::io::Read::read_to_string(&mut current, &mut name).ok()?;
+    let named = match FileNameHandler::get_file_type_from_name(Path::new(name.trim_end())) {
+        Ok(ParsedFileType::ManifestFile(n)) => n,
+        _ => return None,
+    };
+    let tc = Arc::new(TableCache::new(options.clone(), 2));
+    let mut vs = VersionSet::new(options, tc);
+    let reused = vs.recover().ok()?;
+    let next_manifest = vs.get_manifest_file_number();
+    let next_file = vs.get_new_file_number();
+    Some((named, next_manifest, next_file, reused))
+}
